@@ -1,0 +1,6 @@
+//go:build !verif
+
+package reverseproxy
+
+// verifCountEvent is a no-op unless built with -tags verif (see events_verif.go).
+func verifCountEvent(*Host, int, int, int64) {}
